@@ -823,13 +823,14 @@ func c26Spec(c *vk.Ctx, p c26Params) *hbfs.Spec[*c26Inst, c26Ev] {
 func c26AllSpecs() map[string][]c26Params {
 	return map[string][]c26Params{
 		"quick": {
-			{Name: "wsync-eager-burst-dev2-mut2", Eager: true, Devs: 2, Muts: 2, Depth: 12, BadValue: true},
+			{Name: "wsync-eager-burst-dev2-mut1", Eager: true, Devs: 2, Muts: 1, Depth: 12},
 			{Name: "wsync-eager-each-dev1-mut2", Eager: true, FlushEach: true, Devs: 1, Muts: 2, Depth: 11, BadValue: true},
 			{Name: "wsync-full-dev1-mut1", Devs: 1, Muts: 1, Depth: 12},
 			{Name: "wsync-eager-burst-dev1-mut1-tree", Eager: true, Devs: 1, Muts: 1, Depth: 6, Tree: true},
 		},
 		"thorough": {
 			{Name: "wsync-eager-burst-dev3-mut1", Eager: true, Devs: 3, Muts: 1, Depth: 14},
+			{Name: "wsync-eager-burst-dev2-mut2", Eager: true, Devs: 2, Muts: 2, Depth: 14, BadValue: true},
 			{Name: "wsync-eager-burst-dev3-mut2", Eager: true, Devs: 3, Muts: 2, Depth: 16, BadValue: true},
 			{Name: "wsync-eager-each-dev2-mut2", Eager: true, FlushEach: true, Devs: 2, Muts: 2, Depth: 14, BadValue: true},
 			{Name: "wsync-full-dev2-mut1", Devs: 2, Muts: 1, Depth: 16},
